@@ -314,3 +314,4 @@ def check(ctx):
     if n_own < 6:
         ctx.missing("R-SIB", "may::io::sys::IoData", "drop-order/deregister-before-close", "expected >= 6 structs owning an IoData and an fd (TcpStream, TcpListener, UdpSocket, CoIo, 2 connectors), found %d" % n_own)
     shared.io_helper_forwarding(ctx)
+    shared.registered_sockets_are_nonblocking(ctx)
